@@ -362,6 +362,7 @@ class File:
         if not children:
             for prop in obj.props:
                 self.sections[name].create_property(copy_from=prop, keep_copy_id=keep_id)
+            Section._copy_link_target(obj, self.sections[name], keep_id)
 
         return self.sections[name]
 
